@@ -330,7 +330,7 @@ prop("C18", "fault_enumeration",
      "evaluations counts only faults whose site was reached (unreached sites are listed in the evidence). distinct_nontrivial = distinct (configuration class, call, errno, framework call site) tuples reached",
      [
          {"harness": "eng", "flavour": "shim", "args": {"quick": ["--mode", "c18"], "thorough": ["--mode", "c18"]}, "timeout": {"quick": 1200, "thorough": 3500}},
-         {"harness": "eng", "flavour": "shim", "tags": ["poll_opt"], "tiers": ["thorough"], "args": {"thorough": ["--mode", "c18", "--n", "3"]}, "timeout": {"thorough": 3500}},
+         {"harness": "eng", "flavour": "shim", "tags": ["poll_opt"], "args": {"quick": ["--mode", "c18", "--n", "1"], "thorough": ["--mode", "c18", "--n", "3"]}, "timeout": {"quick": 1200, "thorough": 3500}},
      ],
      "System-call fault enumeration through the overlay-injected shim: every I/O-path call site of the current tree is reachable by (call class, index); each injected fault is judged by the "
      "lifecycle monitor, the peers' stream oracle, the descriptor ledger and a liveness probe.",
@@ -347,6 +347,7 @@ prop("C19", "exploration",
      "distinct_nontrivial = distinct (call, engine state) pairs and result kinds checked",
      [
          {"harness": "eng", "flavour": "shim", "args": {"quick": ["--mode", "c19"], "thorough": ["--mode", "c19"]}, "timeout": {"quick": 1200, "thorough": 3500}},
+         {"harness": "eng", "flavour": "shim", "tags": ["poll_opt"], "args": {"quick": ["--mode", "c19", "--n", "6"], "thorough": ["--mode", "c19", "--n", "60"]}, "timeout": {"quick": 1200, "thorough": 3500}},
      ],
      "State-model monitor over the control API with calls racing an ongoing shutdown.",
      "in the shutting-down state any result is accepted (the statement only demands no hang, panic or resurrection)",
